@@ -703,7 +703,8 @@ def _main(ck, bdir, cat, rng, scratch, fast, tier):
             code = k[0] + chr_of(k[1]) + chr_of(k[2])
             nund += 1
             ck.case("dump-unlisted:" + code, nontrivial=True)
-            if len(g) == 1 and g[0][0] == code and g[0][1].strip() == "UNKNOWN":
+            # (whatever wording says "unknown" is no description)
+            if len(g) == 1 and g[0][0] == code and (g[0][1].strip() == "" or "unknown" in g[0][1].lower()):
                 continue
             ck.violation("ovnidump prints a description for the unlisted code %s (model %s): %r; only listed events "
                          "(and the excepted ignored-value categories) have one"
@@ -721,6 +722,8 @@ def _main(ck, bdir, cat, rng, scratch, fast, tier):
         "business of C04/C08",
         "unlisted codes are probed without payload from the canonical context and, in categories whose listed events "
         "carry arguments, also with those payloads in the witness context of each such event",
+        "which models refuse events of a thread that the kernel model has switched out is table data "
+        "(refuses_out_of_cpu in spec/data/events.json = ModelInfo.noooc): ovni and nosv do, the others do not",
         "witness contexts are shortest within the bounded instance (one thread, two CPUs, two mark types, one task, "
         "at most %s open region, histories up to 8 events)" % 1,
     ]
